@@ -224,6 +224,9 @@ theorem iterate_pres (fuel : Nat) (root : P) :
   have hrl := rootLoop_pres g ord fuel
   have hm : TablePres (M.modify fun s : SS P O => { s with nodes := 0, cur := Array.replicate arrSize none }) :=
     modify_pres _ (fun _ => rfl)
+  have hfb : ∀ c (first : P), TablePres (sendFallback c first : M (SS P O) Unit) := by
+    intro c first; unfold sendFallback
+    exact TablePres.ite (report_pres _) (TablePres.pure _)
   induction n with
   | zero => intro c mv b; unfold iterate; tp_auto
   | succ k ih => intro c mv b; unfold iterate; tp_auto
